@@ -286,6 +286,19 @@ func main() {
 		o.Set("recovery.logPointerOp", "lsm/memtable.go:recovery", op, ok, "le")
 	}
 
+	{
+		// WAL segment ids and SST ids share one allocator (levels.maxFID): recovery may only RAISE it
+		// (start from the value build() derived from the manifest's tables, max with every segment id)
+		mtf := o.Load("lsm/memtable.go")
+		fd := mtf.Func("LSM.recovery")
+		b := body(fd)
+		starts := mtf.HasStmt(b, "maxFid := lsm.levels.maxFID")
+		op, cmp := mtf.FindCmp(b, "fid", "maxFid")
+		raises := cmp && op == "gt" && mtf.HasStmt(b, "maxFid = fid")
+		stores := mtf.HasStmt(b, "lsm.levels.maxFID = maxFid")
+		o.Set("recovery.fidAllocator", "lsm/memtable.go:recovery", "raise", fd != nil && starts && raises && stores, "raise")
+	}
+
 	// ------------------------------------------------------------ vlog.go
 	vl := o.Load("vlog.go")
 	{
